@@ -95,7 +95,7 @@ uint_t arch_tzcnt(dig_t a) {
 	};
 #endif
 #if WSIZE == 8
-	if (a >> 4 != 0) {
+	if ((a & 0xF) != 0) {
 		return table[a & 0xF];
 	} else {
 		return table[a >> 4] + 4;
